@@ -1,0 +1,109 @@
+//go:build verif
+
+package fzf
+
+// Hook points for the external verification harness (build tag "verif").
+//
+// verifPoint(name, n) marks a place where the harness may act or delay:
+//   - an in-process handler registered with VerifSetPointHandler is called, or
+//   - the table in $FZF_VERIF_POINTS ("name=sleep(ms)" or "name=P%:sleep(ms)",
+//     comma separated; PRNG seeded from $FZF_VERIF_SEED) injects a delay.
+//
+// verifTrace(kind, a, b, s) appends one JSON line to the file named by
+// $FZF_VERIF_TRACE. The monitor state is a mutex-protected counter and a file;
+// it shares nothing with the state it observes.
+
+import (
+	"fmt"
+	"math/rand"
+	"os"
+	"strconv"
+	"strings"
+	"sync"
+	"sync/atomic"
+	"time"
+)
+
+type verifDelay struct {
+	prob float64
+	ms   int
+}
+
+var (
+	verifHandler atomic.Value // func(string, int)
+	verifOnce    sync.Once
+	verifDelays  map[string]verifDelay
+	verifRngMu   sync.Mutex
+	verifRng     *rand.Rand
+	verifTraceMu sync.Mutex
+	verifTraceF  *os.File
+	verifSeq     int64
+	verifStart   = time.Now()
+)
+
+// VerifSetPointHandler registers (or, with nil, removes) the in-process point handler.
+func VerifSetPointHandler(f func(name string, n int)) {
+	if f == nil {
+		verifHandler.Store((func(string, int))(nil))
+		return
+	}
+	verifHandler.Store(f)
+}
+
+func verifInit() {
+	seed, _ := strconv.ParseInt(os.Getenv("FZF_VERIF_SEED"), 10, 64)
+	verifRng = rand.New(rand.NewSource(seed + 1))
+	verifDelays = map[string]verifDelay{}
+	for _, ent := range strings.Split(os.Getenv("FZF_VERIF_POINTS"), ",") {
+		kv := strings.SplitN(strings.TrimSpace(ent), "=", 2)
+		if len(kv) != 2 {
+			continue
+		}
+		d := verifDelay{prob: 1}
+		spec := kv[1]
+		if i := strings.Index(spec, "%:"); i > 0 {
+			if p, err := strconv.ParseFloat(spec[:i], 64); err == nil {
+				d.prob = p / 100
+			}
+			spec = spec[i+2:]
+		}
+		if strings.HasPrefix(spec, "sleep(") && strings.HasSuffix(spec, ")") {
+			d.ms, _ = strconv.Atoi(spec[6 : len(spec)-1])
+		}
+		verifDelays[kv[0]] = d
+	}
+	if path := os.Getenv("FZF_VERIF_TRACE"); path != "" {
+		verifTraceF, _ = os.OpenFile(path, os.O_CREATE|os.O_WRONLY|os.O_APPEND, 0600)
+	}
+}
+
+func verifPoint(name string, n int) {
+	if h, _ := verifHandler.Load().(func(string, int)); h != nil {
+		h(name, n)
+		return
+	}
+	verifOnce.Do(verifInit)
+	if d, ok := verifDelays[name]; ok && d.ms > 0 {
+		hit := true
+		if d.prob < 1 {
+			verifRngMu.Lock()
+			hit = verifRng.Float64() < d.prob
+			verifRngMu.Unlock()
+		}
+		if hit {
+			time.Sleep(time.Duration(d.ms) * time.Millisecond)
+		}
+	}
+}
+
+func verifTrace(kind string, a int, b int, s string) {
+	verifOnce.Do(verifInit)
+	if verifTraceF == nil {
+		return
+	}
+	verifTraceMu.Lock()
+	verifSeq++
+	fmt.Fprintf(verifTraceF, "{\"seq\":%d,\"t_us\":%d,\"kind\":%q,\"a\":%d,\"b\":%d,\"s\":%q}\n",
+		verifSeq, time.Since(verifStart).Microseconds(), kind, a, b, s)
+	verifTraceMu.Unlock()
+}
